@@ -372,7 +372,18 @@ def tolerance(ck):
                     if not (rel(float(got[0]), float(one[0])) <= 1e-5 and rel(float(got[1]), float(one[1])) <= 1e-5):
                         fails.append({"obligation": "%s/bounded.clamp[%s]" % (qn, dt), "clause": "an emergence angle below 1 deg gives the result of 1 deg",
                                       "input": {"beta_deg": b, "alt": 0.5, "E": 1.0, "zdet": zd, "dtype": dt}, "observed": {"at beta": [float(got[0]), float(got[1])], "at 1 deg": [float(one[0]), float(one[1])]}})
-    return {"evaluations": n_cmp, "failures": fails, "detail": stats}
+    # at most three witnesses per obligation (largest deviation first); the counts are in the detail block
+    by, kept = {}, []
+    for f in fails:
+        by.setdefault(f["obligation"], []).append(f)
+    for ob, fl in by.items():
+        fl.sort(key=lambda f: -(f["observed"].get("relative deviation", 0.0) if isinstance(f.get("observed"), dict) else 0.0))
+        for f in fl[:3]:
+            f = dict(f)
+            f["note"] = "%d design events fail this clause; the %d largest are reported" % (len(fl), min(3, len(fl)))
+            kept.append(f)
+    stats["failing events per clause"] = {ob: len(fl) for ob, fl in by.items()}
+    return {"evaluations": n_cmp, "failures": kept, "detail": stats}
 
 
 # ------------------------------------------------------------------------------------------
@@ -435,13 +446,9 @@ def atmosphere_lemmas(ck, fcs):
         if Xl is None or rl is None or Xl.has(sym.Ite) or rl.has(sym.Ite):
             ck.direct("%s/lemma.density_is_derivative[%s]" % (qn, nm), None, "lemma", "sympy diff", note="layer selection not resolved")
             continue
-        d = sp.simplify(rl + sp.Rational(1, 100000) * sp.diff(Xl, z))
-        ok = d == 0
-        if not ok:
-            ok = abs(complex(d.subs(z, mid))) < 1e-18 and abs(complex(d.subs(z, mid + 0.37))) < 1e-18 and sp.simplify(sp.powsimp(sp.expand_power_base(d, force=True), force=True)) == 0
-        ck.direct("%s/lemma.density_is_derivative[%s]" % (qn, nm), bool(ok), "lemma", "sympy diff + normal form", clause="rho(z) = -dX/dz with z converted from km to cm (factor 1e-5) in layer %s" % nm,
-                  note="" if ok else "residual %s" % str(d)[:120], witness={"z": float(mid), "residual": float(abs(complex(d.subs(z, mid))))},
-                  replay_out=None if ok else derivative_replay(mid))
+        st_, wit = prover.identity_decide(rl, -sp.Rational(1, 100000) * sp.diff(Xl, z), boxes={z: (mid - 3.0, mid + 3.0)}, seed=ck.seed)
+        ck.direct("%s/lemma.density_is_derivative[%s]" % (qn, nm), True if st_ == "proved" else (False if st_ == "refuted" else None), "lemma", "sympy diff + normal form / 40-digit evaluation",
+                  clause="rho(z) = -dX/dz with z converted from km to cm (factor 1e-5) in layer %s" % nm, witness=wit, replay_out=None if st_ != "refuted" else derivative_replay(mid))
         ck.prove("%s/lemma.positive[%s]" % (qn, nm), hy, sp.And(sp.Gt(Xl, 0), sp.Gt(rl, 0)), kind="lemma", clause="X > 0 and rho > 0 in layer %s" % nm)
 
 
@@ -518,7 +525,7 @@ def slant_depth_obligations(ck):
     R, ZM = sym.rat(float(c.RadE)), sym.rat(float(c.zmax))
 
     def same(got, want):
-        return len(got) == len(want) and all(sp.expand(g - w) == 0 for g, w in zip(got, want))
+        return len(got) == len(want) and all(prover.identity_decide(g, w, seed=ck.seed)[0] == "proved" for g, w in zip(got, want))
 
     rep = lambda: slant_native()  # noqa
     ck.direct("%s/call.zsteps" % qn, calls["zsteps"] == [(alt, sv)], "call", "call log (symbolic execution)", clause="the stepping starts at the decay altitude with the event's sine of the viewing angle", replay_out=None if calls["zsteps"] == [(alt, sv)] else rep())
@@ -595,7 +602,8 @@ def run(ck):
               "refmodel/cphot_ref.py is the oracle of the bounded check: an independent float64 evaluation written from the model named in the statement; it shares the published parametrisations and their constants with the kernel, none of its code",
               "leaf proofs are over the reals: the kernel's dtype casts are identities there; its geometric constants (Earth radius, orbit, pi) are symbols in the proofs and checked as data",
               "zsteps (compiled C++; pybind11 is not installed, the shipped binary cannot be rebuilt) is replaced by its contract in slant_depth and checked against the model's own stepping only inside the bounded run",
-              "photon_sum (3-D Hillas integration, einsum) is outside the symbolic front end: it is covered by the bounded run only")
+              "photon_sum (3-D Hillas integration, einsum) and cher_ang_sig_i are outside the symbolic front end: they are covered by the bounded run only; in the proof of run's body they are abstract functions of the arguments they are given",
+              "run's body is proved on a shower of 3 explicit steps x 2 wavelength bins with the particle-number maximum at the middle step (explicit-array small scope), every helper replaced by its contract")
     ck.trust("numpy elementwise / mask-store / where / searchsorted / cumsum semantics (nssvc.npmodel)", "sympy diff and normal forms")
     for rel_ in ("nuspacesim/simulation/eas_optical/cphotang.py", "nuspacesim/simulation/eas_optical/eas.py", "nuspacesim/simulation/eas_optical/detector_geometry.py",
                  "nuspacesim/simulation/eas_optical/shower_properties.py"):
@@ -605,6 +613,8 @@ def run(ck):
     fcs = leaves(ck)
     atmosphere_lemmas(ck, fcs)
     slant_depth_obligations(ck)
+    yield_obligations(ck)
+    run_body_obligations(ck)
     table_obligations(ck)
     # event by event: EAS.__call__ hands each in-range event's own angle, altitude, energy and location to the kernel (same mask on all five);
     # the 1-degree clamp reaches every use of the angle, including the rescaling to the detector altitude
@@ -614,3 +624,329 @@ def run(ck):
     ck.bounded_run("real kernel (float32 as shipped; float64 same code) vs double-precision reference model", lambda: tolerance(ck),
                    design="%d events: emergence angle x decay altitude x shower energy grid over [0,42] deg x [0,20] km x [1e-5,1e4] (boundaries included) at 525 km, plus %d events at detector altitudes 33 / 1000 km; "
                           "clauses: finite and non-negative, density within max(10 %%, 0.1/m^2) per event and 0.5 %% in the median, angle within 1 %%, sub-degree angles give the 1-degree result" % (len(main), len(other)))
+
+
+# ------------------------------------------------------------------------------------------
+# per-step, per-wavelength yield (2-D generic element) and the aerosol model
+# ------------------------------------------------------------------------------------------
+
+
+def yield_obligations(ck):
+    """sphoton_yeild and aerosol_model on a generic (step, wavelength) element: the per-wavelength tables are abstract per-bin values
+    (their contents are data obligations), the aerosol factor is the callee's contract inside sphoton_yeild and is proved separately"""
+    import copy
+
+    from nuspacesim.simulation.eas_optical.cphotang import CphotAng
+    from nssvc.sym import Axis
+
+    Z, W = Axis("z"), Axis("w")
+
+    def arr(ax, name, **kw):
+        s_ = sp.Symbol(name, real=True, **kw)
+        ax.syms.add(s_)
+        return A((ax,), s_, sp.true, origin=name), s_
+
+    aer = sp.Function("aerosol_transmission")
+    qn = "cphotang:CphotAng.sphoton_yeild"
+    it = harness.make_interp({CphotAng.aerosol_model: lambda interp, self_, z, tp: A((z.axes[0], W), aer(z.e, tp.e), z.dom)})
+    hold = {}
+
+    def mk():
+        c = copy.copy(k64())
+        (c.PYieldCoeff, pyc), (c.wmean, wm), (c.Okappa, ok), (c.aBetaF, ab) = arr(W, "yield_coeff", positive=True), arr(W, "wmean", positive=True), arr(W, "okappa"), arr(W, "abeta", positive=True)
+        cols = [arr(Z, n_) for n_ in ("thetaC", "RN", "delgram", "ZonZ", "z", "ThetPrpA")]
+        hold.update(pyc=pyc, wm=wm, ok=ok, ab=ab, **{str(s_): s_ for _a, s_ in cols})
+        return c.sphoton_yeild, [a for a, _s in cols], {}
+
+    paths = it.explore(mk)
+    ck.add_functions(it)
+    ok_ = [p for p in paths if p.kind == "return"]
+    if len(paths) != 1 or not ok_:
+        o = ck.ob("%s/exec" % qn, "exec")
+        o.note = "; ".join("%s %s at %s" % (p.kind, p.exc, getattr(p, "where", "")) for p in paths[:3])
+        ck._undecided(o, None)
+    else:
+        r = ok_[0].result
+        h = hold
+        want = sp.sin(h["thetaC"]) ** 2 * h["pyc"] * sp.exp(-h["delgram"] / 2974 * (400 / h["wm"]) ** 4) * sp.exp(h["ZonZ"] * h["ok"]) * aer(h["z"], h["ThetPrpA"]) * h["RN"]
+        ck.direct("%s/shape" % qn, isinstance(r, A) and tuple(a.name for a in r.axes) == ("z", "w") and r.dom is sp.true, "post", "symbolic execution (axes)", clause="one value per (step, wavelength bin), no step dropped")
+        st, wit = prover.identity_decide(r.e, want, seed=ck.seed)
+        ck.direct("%s/post.SPYield" % qn, True if st == "proved" else (False if st == "refuted" else None), "post", "sympy normal form / 40-digit evaluation", witness=wit, note="" if st == "proved" else str(r.e)[:200],
+                  clause="yield(step, bin) = sin^2(theta_c) * yield coefficient(bin) * exp(-slant depth ahead/2974 * (400/lambda)^4) [Rayleigh] * exp(ozone column ahead * kappa(bin)) "
+                  "* aerosol transmission(step, bin) * number of particles", replay_out=yield_native() if st == "refuted" else None)
+        eff = [e for e in ok_[0].effects if e[0] in ("store", "inplace") and isinstance(e[1], A) and e[1].origin]
+        ck.direct("%s/assigns.params" % qn, not eff, "frame", "effect-log(symbolic execution)", clause="sphoton_yeild modifies none of its argument arrays or the kernel's tables", note=str([(e[1].origin, e[3]) for e in eff]))
+    # aerosol_model itself
+    qn = "cphotang:CphotAng.aerosol_model"
+    it2 = harness.make_interp()
+    zz, tpp, abb, P = sp.Symbol("z", nonnegative=True), sp.Symbol("ThetPrpA", real=True), sp.Symbol("abeta", positive=True), sp.Symbol("P", positive=True)
+    hy = [sp.Le(zz, 65)]
+
+    def mk2():
+        c = copy.copy(k64())
+        c.aBetaF = A((W,), abb, sp.true, origin="abeta")
+        c.pi = S(P)
+        it2.base_facts = list(hy)
+        return c.aerosol_model, [A((Z,), zz, sp.true, origin="z"), A((Z,), tpp, sp.true, origin="ThetPrpA")], {}
+
+    Z.syms.update({zz, tpp})
+    W.syms.add(abb)
+    paths = it2.explore(mk2)
+    ck.add_functions(it2)
+    ok_ = [p for p in paths if p.kind == "return"]
+    if len(paths) != 1 or not ok_:
+        o = ck.ob("%s/exec" % qn, "exec")
+        o.note = "; ".join("%s %s at %s" % (p.kind, p.exc, getattr(p, "where", "")) for p in paths[:3])
+        ck._undecided(o, lambda: aerosol_native())
+        return
+    got = ok_[0].result.e
+    c = k64()
+    aod, dfa = np.asarray(c.aOD55, float), np.append(np.asarray(c.aOD55, float)[:-1] - np.asarray(c.aOD55, float)[1:], 0.0)
+    worst, first = 0, None
+    for i in range(30):
+        hyi = hy + [sp.Ge(zz, i), sp.Lt(zz, i + 1)]
+        od = sym.rat(float(aod[i])) - (zz - i) * sym.rat(float(dfa[i]))
+        want = sp.exp(-od * abb / sp.cos(P / 2 - tpp))
+        gi = prover.resolve_ite(got.xreplace({sp.floor(zz): sp.Integer(i)}), hyi)
+        st, wit = prover.identity_decide(gi, want, hyps=hyi, boxes={zz: (i + 0.01, i + 0.99), tpp: (0.3, 1.5), abb: (0.3, 3.0), P: (3.1415, 3.1416)}, seed=ck.seed)
+        if st != "proved":
+            worst += 1
+            first = first or (i, st, wit, str(gi)[:160])
+    ck.direct("%s/post.aTrans[below 30 km]" % qn, True if worst == 0 else (False if first[1] == "refuted" else None), "post", "z3 (branch resolution) + sympy normal form / 40-digit evaluation, 30 one-km layers",
+              note="" if worst == 0 else "%d layers differ; first: km %d: %s" % (worst, first[0], first[3]), witness=None if worst == 0 else first[2],
+              clause="for i <= z < i+1 < 30: transmission = exp(-(OD_i - (z - i)(OD_i - OD_{i+1})) * beta(lambda) / cos(pi/2 - theta_prop)): Elterman optical depth interpolated linearly inside the km, slant factor 1/sin(theta_prop)",
+              replay_out=None if worst == 0 or first[1] != "refuted" else aerosol_native())
+    top = prover.resolve_ite(got, hy + [sp.Ge(zz, 30)])
+    ck.direct("%s/post.aTrans[30 km and above]" % qn, top == 1, "post", "z3 (branch resolution)", clause="no aerosol attenuation from 30 km on", note=str(top)[:100], replay_out=None if top == 1 else aerosol_native())
+
+
+def yield_native():
+    """the real sphoton_yeild against the formula on one real track (aerosol factor taken from the real aerosol_model)"""
+    c = k64()
+    z = np.array([1.5, 8.0, 20.0, 40.0])
+    thc, rn, dg, oz, tp = np.full(4, 0.02), np.array([1e3, 5e4, 2e5, 10.0]), np.array([900.0, 400.0, 60.0, 3.0]), np.array([300.0, 280.0, 200.0, 5.0]), np.full(4, 0.8)
+    got = c.sphoton_yeild(thc, rn, dg, oz, z, tp)
+    wm = np.asarray(c.wmean, float)
+    want = (np.sin(thc) ** 2)[:, None] * np.asarray(c.PYieldCoeff, float)[None, :] * np.exp(-dg[:, None] / 2974.0 * (400.0 / wm[None, :]) ** 4) * np.exp(oz[:, None] * np.asarray(c.Okappa, float)[None, :]) * c.aerosol_model(z, tp) * rn[:, None]
+    bad = np.argwhere(~np.isclose(got, want, rtol=1e-9, atol=0))
+    return {"violated": bool(len(bad)), "input": {"z": z.tolist()}, "observed": {"first differing (step, bin)": bad[:3].tolist(), "kernel": [float(got[tuple(b)]) for b in bad[:3]], "formula": [float(want[tuple(b)]) for b in bad[:3]]}}
+
+
+def aerosol_native():
+    from refmodel import cphot_ref as M
+
+    c = k64()
+    z = np.array([0.0, 0.4, 1.0, 7.5, 28.999, 29.0, 29.5, 30.0, 45.0])
+    tp = np.full(z.shape, 0.7)
+    got = c.aerosol_model(z, tp)
+    want = np.array([[math.exp(-M.aerosol_depth(float(q)) * b / math.cos(float(c.pi) / 2 - 0.7)) if q < 30 else 1.0 for b in M.AEROSOL_BETA] for q in z])
+    bad = np.argwhere(~np.isclose(got, want, rtol=1e-9, atol=0))
+    return {"violated": bool(len(bad)), "input": {"z": z.tolist(), "theta_prop": 0.7}, "observed": {"first differing (step, bin)": bad[:3].tolist(), "kernel": [float(got[tuple(b)]) for b in bad[:3]], "model": [float(want[tuple(b)]) for b in bad[:3]]}}
+
+
+# ------------------------------------------------------------------------------------------
+# the body of run on explicit arrays: every helper by contract, the wiring and the final formulas for real
+# ------------------------------------------------------------------------------------------
+
+
+def run_body_obligations(ck):
+    """CphotAng.run executed on a shower of 3 explicit steps x 2 wavelength bins with every helper replaced by its contract (abstract
+    per-step functions, arguments recorded): which helper gets which columns, the cloud masking of the yield, the yield-weighted mean
+    angle, the spot area at the step of maximum particle number, density = photon sum / (2 area) x rescaling, angle in degrees"""
+    import copy
+
+    from nuspacesim.simulation.eas_optical.cphotang import CphotAng
+    from nssvc.sym import EA
+
+    qn = "cphotang:CphotAng.run[body]"
+    n, w = 3, 2
+    F = sp.Function
+
+    def col(name, **kw):
+        kw.setdefault("real", True)
+        return [sp.Symbol("%s_%d" % (name, k), **kw) for k in range(n)]
+
+    def ea(vals):
+        a = np.empty(len(vals), dtype=object)
+        for i, x in enumerate(vals):
+            a[i] = S(x) if not isinstance(x, S) else x
+        return EA(a)
+
+    zs, dg, oz, tp, nair, s_, e2 = col("z", positive=True), col("delgram"), col("ZonZ"), col("tp"), col("n"), col("s"), col("e2")
+    rn = [sp.Integer(2), sp.Integer(7), sp.Integer(5)]  # concrete particle numbers: the maximum is at step 1
+    Y = [[sp.Symbol("Y_%d_%d" % (k, j), nonnegative=True) for j in range(w)] for k in range(n)]
+    beta, alt, E = sp.Symbol("betaE", positive=True), sp.Symbol("alt", nonnegative=True), sp.Symbol("E100", positive=True)
+    photsum, sig = sp.Symbol("photsum", nonnegative=True), sp.Symbol("sigma_theta", nonnegative=True)
+    log = {}
+    SLANT = ("slant-depth-result",)
+
+    def rec(name, *args):
+        log.setdefault(name, []).append(args)
+
+    def t(x):
+        if isinstance(x, EA):
+            return [t(q) for q in x.a] if x.ndim == 1 else [[t(q) for q in row] for row in x.a]
+        return harness.term(x) if isinstance(x, (S, A)) or not isinstance(x, tuple) else x
+
+    def o_slant(interp, self_, alt_, sv):
+        rec("slant_depth", t(alt_), t(sv))
+        return SLANT
+
+    def o_valid(interp, self_, *a):
+        rec("valid_arrays", a[:-1], t(a[-1]))
+        return ea(zs), ea(dg), ea(oz), ea(tp), ea(nair), ea(s_), ea(rn), ea(e2)
+
+    def o_e0(interp, self_, shape, s):
+        rec("e0", tuple(shape), t(s))
+        return ea([F("E0")(x) for x in s_])
+
+    def o_thr(interp, self_, AirN):
+        rec("threshold", t(AirN))
+        return ea([F("eth")(x) for x in nair]), ea([F("thetaC")(x) for x in nair])
+
+    def o_track(interp, self_, E0, eth, s):
+        rec("tracklen", t(E0), t(eth), t(s))
+        return ea([F("Tfrac")(k) for k in range(n)])
+
+    def o_dist(interp, self_, tv, tpa, z):
+        rec("d_to_det", t(tv), t(tpa), t(z))
+        return ea([F("dist")(k) for k in range(n)])
+
+    def o_yield(interp, self_, thetaC, RN, delgram, ZonZ, z, tpa):
+        rec("sphoton_yeild", t(thetaC), t(RN), t(delgram), t(ZonZ), t(z), t(tpa))
+        a = np.empty((n, w), dtype=object)
+        for k in range(n):
+            for j in range(w):
+                a[k, j] = S(Y[k][j])
+        return EA(a)
+
+    def o_psum(interp, self_, SPYield, DistStep, thetaC, e2hill, eCthres, Tfrac, E0, s, Eshow):
+        rec("photon_sum", t(SPYield), t(DistStep), t(thetaC), t(e2hill), t(eCthres), t(Tfrac), t(E0), t(s), t(Eshow))
+        return S(photsum)
+
+    def o_sig(interp, self_, taphotstep, taphotsum, thetaC, Ave):
+        rec("cher_ang_sig_i", t(taphotstep), t(taphotsum), t(thetaC), t(Ave))
+        return S(sig)
+
+    ov = {CphotAng.slant_depth: o_slant, CphotAng.valid_arrays: o_valid, CphotAng.e0: o_e0, CphotAng.cherenkov_threshold_angle: o_thr, CphotAng.tracklen: o_track,
+          CphotAng.d_to_det: o_dist, CphotAng.sphoton_yeild: o_yield, CphotAng.photon_sum: o_psum, CphotAng.cher_ang_sig_i: o_sig}
+    it = harness.make_interp(ov, max_paths=64)
+    RS, OS, P, ZD = sp.Symbol("RadE", positive=True), sp.Symbol("orbit_height", positive=True), sp.Symbol("P", positive=True), sp.Symbol("z_det", positive=True)
+    ctop = sp.Symbol("cloud_top", real=True)
+    hyps = [sp.Ge(beta, sp.pi / 180), sp.Le(beta, sp.pi * 42 / 180), sp.Le(alt, 20), sp.Gt(ZD, 20), sp.Gt(RS, 6000), sp.Gt(OS, 100), sp.Lt(zs[0], zs[1]), sp.Lt(zs[1], zs[2])]
+
+    def mk():
+        log.clear()
+        c = copy.copy(k64())
+        c.RadE, c.orbit_height, c.zmax, c.pi, c.detector_altitude = S(RS), S(OS), S(OS), S(P), S(ZD)
+        it.base_facts = list(hyps)
+        log["__started__"] = []
+        return c.run, [S(beta), S(alt), S(E), S(sp.Symbol("lat")), S(sp.Symbol("long")), (lambda la, lo: S(ctop))], {}
+
+    logs = []
+
+    def mk_logged():
+        if log:
+            logs.append({k_: list(v_) for k_, v_ in log.items()})
+        return mk()
+
+    paths = it.explore(mk_logged)
+    logs.append({k_: list(v_) for k_, v_ in log.items()})
+    ck.add_functions(it)
+    bad = [p for p in paths if p.kind != "return"]
+    if bad or not paths or len(logs) != len(paths):
+        o = ck.ob("%s/exec" % qn, "exec")
+        o.note = "; ".join("%s %s at %s" % (p.kind, p.exc, getattr(p, "where", "")) for p in bad[:3]) or "no path / log mismatch"
+        ck._undecided(o, None)
+        return
+    R_, O_ = RS, OS
+
+    def dsin(zd):
+        tv = sp.asin(R_ * sp.cos(beta) / (R_ + zd))
+        tpp = sp.acos(R_ * sp.cos(beta) / (R_ + alt))
+        return sp.sin(sp.pi / 2 - tv - tpp) / sp.sin(tv) * (alt + R_)
+
+    thv = sp.asin(R_ / (R_ + O_) * sp.cos(beta))
+    Eg = E * 100000000
+    thC = [F("thetaC")(x) for x in nair]
+    eth = [F("eth")(x) for x in nair]
+    E0 = [F("E0")(x) for x in s_]
+    Tf = [F("Tfrac")(k) for k in range(n)]
+    dist = [F("dist")(k) for k in range(n)]
+    imax = 1
+    res = {"early": True, "calls": True, "cloud": True, "zero": True, "mean": True, "dens": True, "ang": True}
+    notes = []
+    n_full = 0
+    for p, lg in zip(paths, logs):
+        pcs = set(p.pc)
+        den, ang = harness.term(p.result[0]), harness.term(p.result[1])
+        below = [sp.Lt(zs[k], ctop) in pcs for k in range(n)]
+        if sp.Lt(zs[n - 2], ctop) in pcs:
+            if not (den == 0 and ang == 0 and "photon_sum" not in lg):
+                res["early"] = False
+                notes.append("early exit path returns %s" % ((den, ang),))
+            continue
+        if not all((sp.Lt(zs[k], ctop) in pcs) or (sp.Ge(zs[k], ctop) in pcs) for k in range(n)):
+            res["cloud"] = False
+            notes.append("a step's position relative to the cloud top is not decided on path %s" % p.pc)
+            continue
+        Ym = [[sp.Integer(0) if below[k] else Y[k][j] for j in range(w)] for k in range(n)]
+        want_calls = {
+            "slant_depth": [(alt, sp.sin(thv))], "valid_arrays": [(SLANT, Eg)], "e0": [((n,), s_)], "threshold": [(nair,)], "tracklen": [(E0, eth, s_)],
+            "d_to_det": [(thv, tp, zs)], "sphoton_yeild": [(thC, rn, dg, oz, zs, tp)],
+            "photon_sum": [(Ym, dist, thC, e2, eth, Tf, E0, s_, Eg)],
+        }
+        for name, wantc in want_calls.items():
+            gotc = lg.get(name, [])
+            same = len(gotc) == len(wantc) and all(len(g) == len(w_) and all(_same_term(x, y) for x, y in zip(g, w_)) for g, w_ in zip(gotc, wantc))
+            if not same:
+                res["calls" if name != "photon_sum" else "cloud"] = False
+                notes.append("%s called with %s" % (name, str(gotc)[:200]))
+        tap = [sum(Ym[k]) * Tf[k] for k in range(n)]
+        Wt = sum(tap)
+        if sp.Eq(Wt, 0) in pcs or (sp.expand(Wt) == 0):
+            if not (den == 0 and ang == 0):
+                res["zero"] = False
+                notes.append("no light above the cloud but result %s" % ((den, ang),))
+            continue
+        n_full += 1
+        ave = sum(tap[k] * thC[k] for k in range(n)) / Wt
+        sg = lg.get("cher_ang_sig_i", [])
+        if not (len(sg) == 1 and _same_term(sg[0], (tap, Wt, thC, ave))):
+            res["mean"] = False
+            notes.append("cher_ang_sig_i called with %s" % str(sg)[:300])
+        want_den = sp.Rational(1, 2) * photsum / (P * (sp.tan(ave) * 1000 * dist[imax]) ** 2) * (dsin(O_) / dsin(ZD)) ** 2
+        want_ang = (ave + sig) * 180 / sp.pi
+        st_ = prover.identity_decide(den, want_den, seed=ck.seed)[0]
+        if st_ != "proved":
+            res["dens"] = False if st_ == "refuted" or res["dens"] is False else None
+            notes.append("density %s" % str(den)[:200])
+        st_ = prover.identity_decide(ang, want_ang, seed=ck.seed)[0]
+        if st_ != "proved":
+            res["ang"] = False if st_ == "refuted" or res["ang"] is False else None
+            notes.append("angle %s" % str(ang)[:200])
+    if n_full == 0:
+        ck.vacuity["failed"].append("%s: no path reached the final formulas" % qn)
+    be = "symbolic execution on explicit arrays (%d steps x %d bins, helpers by contract) + sympy normal form" % (n, w)
+    note = "; ".join(notes[:3])
+    rep = None if all(v is True for v in res.values()) else {"violated": None, "note": "the bounded run of the real kernel against the reference model is the native side of this obligation"}
+    ck.direct("%s/post.early_exit" % qn, res["early"], "post", be, note=note, clause="(0, 0) is returned without summing when the second-to-last step lies below the cloud top", replay_out=rep)
+    ck.direct("%s/call.helpers" % qn, res["calls"], "call", be, note=note, clause="each helper receives the columns of the same shower: slant_depth(alt, sin theta_view), valid_arrays(.., E x 1e8 GeV), e0(s), threshold(n), "
+              "tracklen(E0, E_thr, s), d_to_det(theta_view, theta_prop, z), sphoton_yeild(theta_c, N, depth ahead, ozone ahead, z, theta_prop)", replay_out=rep)
+    ck.direct("%s/post.cloud_mask" % qn, res["cloud"], "post", be, note=note, clause="the yield of every step below the cloud top is zero in the photon sum (and in the angle weights); steps at or above it are untouched", replay_out=rep)
+    ck.direct("%s/post.no_light" % qn, res["zero"], "post", be, note=note, clause="(0, 0) when the total weight is zero", replay_out=rep)
+    ck.direct("%s/post.mean_angle" % qn, res["mean"], "post", be, note=note, clause="weights = (sum over bins of the yield) x track-length fraction per step; <theta> = sum(weight x theta_c)/sum(weight); the spread is computed from the same weights", replay_out=rep)
+    ck.direct("%s/post.density" % qn, res["dens"], "post", be, note=note, clause="density = photon sum / (2 pi (tan<theta> x 1000 x distance at the step of maximum particle number)^2) x (d(525 km)/d(detector))^2", replay_out=rep)
+    ck.direct("%s/post.angle" % qn, res["ang"], "post", be, note=note, clause="effective angle = (<theta> + spread) in degrees", replay_out=rep)
+
+
+def _same_term(x, y):
+    if isinstance(x, (list, tuple)) and isinstance(y, (list, tuple)):
+        return len(x) == len(y) and all(_same_term(a, b) for a, b in zip(x, y))
+    if isinstance(x, (list, tuple)) or isinstance(y, (list, tuple)):
+        return False
+    try:
+        x, y = sp.sympify(x), sp.sympify(y)
+    except Exception:
+        return x == y
+    return x == y or prover.identity_decide(x, y)[0] == "proved"
